@@ -82,7 +82,7 @@ Profile profile_for(const std::string &c) {
     } else if (c == "C20") {
         set(p.w_driver, {{SRC, 50}, {LIFE, 24}, {ENV, 10}, {REG, 5}, {MSG, 4}, {REF, 4}});
         set(p.w_script, {{SRC, 30}, {LIFE, 26}, {CTX, 8}, {REF, 14}, {MSG, 4}});
-        p.mod_flag_bits = 1; p.src_kinds = 127; p.src_flag_bits = 1 | 2 | 4 | 8; p.sub_flag_bits = 0; p.hooks_all = true;
+        p.mod_flag_bits = 1 | 2 | 4; p.src_kinds = 127; p.src_flag_bits = 1 | 2 | 4 | 8; p.sub_flag_bits = 0; p.hooks_all = true;   // (replaceable and persistent modules: other ways for a module to go, or to stay)
     } else {
         set(p.w_driver, {{LIFE, 20}, {MSG, 20}});
         set(p.w_script, {{LIFE, 20}, {MSG, 20}});
@@ -138,7 +138,10 @@ struct Gen {
         }
         case REG: {
             long hooks = pf.hooks_all ? (r.chance(0.7) ? 7 : (long)r.below(8)) : (long)r.below(8);
-            p.add(where, "reg", {(long)r.below(camp == "C15" || camp == "C07" || camp == "C01" ? 3 : NAME_POOL_N), rbits(pf.mod_flag_bits, 0.3), hooks, r.chance(0.75) ? 1 : 0});
+            long mfl = rbits(pf.mod_flag_bits, 0.3);
+            // avoid(known finding: task thread vs module stop): a replacing registration deregisters the old module - not next to task sources outside C04
+            if (tasks_in_program && camp != "C04") mfl &= ~2L;
+            p.add(where, "reg", {(long)r.below(camp == "C15" || camp == "C07" || camp == "C01" ? 3 : NAME_POOL_N), mfl, hooks, r.chance(0.75) ? 1 : 0});
             nmods++;
             break;
         }
